@@ -681,6 +681,13 @@ func runP5(p *an.Prog, r *an.Result) {
 // P6
 
 func comparableKnown(p *an.Prog, v ssa.Value) (bool, string) {
+	// a value of a type parameter whose constraint admits basic types only (cmp.Ordered): == cannot panic
+	if v == nil {
+		return false, ""
+	}
+	if tp, ok := v.Type().(*types.TypeParam); ok && basicOnlyConstraint(tp) {
+		return true, "a type parameter constrained to basic types"
+	}
 	switch x := v.(type) {
 	case *ssa.Const:
 		return true, "constant"
@@ -1447,8 +1454,119 @@ func (nn *nonNeg) value(v ssa.Value, at ssa.Instruction, depth int) bool {
 			_ = nx
 			return false
 		}
+	case *ssa.Field:
+		// a field of a module struct holds what was stored into that field somewhere (or zero)
+		return nn.fieldNonNeg(v, depth)
+	case *ssa.Parameter:
+		// at every call of an unexported function that is only ever called
+		fn := x.Parent()
+		if fn == nil || !nn.p.InModule(fn) || fn.Object() == nil || fn.Object().Exported() || nn.invoked(fn) {
+			return false
+		}
+		idx := -1
+		for i, pp := range fn.Params {
+			if pp == x {
+				idx = i
+			}
+		}
+		sites := callSitesOf(nn.p, fn)
+		if idx < 0 || len(sites) == 0 {
+			return false
+		}
+		for _, s := range sites {
+			if idx >= len(s.Call.Args) || !nn.value(s.Call.Args[idx], s, depth+2) {
+				return false
+			}
+		}
+		return true
+	}
+	if ld, ok := v.(*ssa.UnOp); ok && ld.Op == token.MUL {
+		if _, isFA := ld.X.(*ssa.FieldAddr); isFA {
+			return nn.fieldNonNeg(v, depth)
+		}
 	}
 	return false
+}
+
+// invoked: fn may be reached other than by its static call sites - used as a value, bound as a method
+// value, or a method some interface call of the module could dispatch to.
+func (nn *nonNeg) invoked(fn *ssa.Function) bool {
+	found := false
+	for _, f := range nn.p.Funcs {
+		an.EachInstr(f, func(in ssa.Instruction) {
+			if c, ok := in.(ssa.CallInstruction); ok && c.Common().IsInvoke() && c.Common().Method.Name() == fn.Name() && fn.Signature.Recv() != nil {
+				found = true
+			}
+			for _, op := range in.Operands(nil) {
+				if *op == nil {
+					continue
+				}
+				if *op == ssa.Value(fn) {
+					if c, ok := in.(ssa.CallInstruction); !ok || c.Common().Value != ssa.Value(fn) {
+						found = true
+					}
+				}
+				if mc, ok := (*op).(*ssa.MakeClosure); ok {
+					if bm := boundMethodOf(mc); bm == fn {
+						found = true
+					}
+				}
+			}
+		})
+	}
+	return found
+}
+
+// fieldNonNeg: v reads an integer field of a struct type declared in the module, and every value the module
+// stores into that field is non-negative where it is stored.
+func (nn *nonNeg) fieldNonNeg(v ssa.Value, depth int) bool {
+	st := fieldStoresOf(nn.p, v)
+	if st == nil {
+		return false
+	}
+	for _, s := range st {
+		if !nn.value(s.Val, s, depth+2) {
+			return false
+		}
+	}
+	return true
+}
+
+// fieldStoresOf: for a read of a field of a struct type declared in the module, every store the module makes
+// into that field (of any instance); nil when v is no such read, when there is no store, or when the struct's
+// fields can be written by other means (the whole struct stored through a pointer from a foreign source is
+// still built from these stores; unsafe and reflection are outside the model).
+func fieldStoresOf(p *an.Prog, v ssa.Value) []*ssa.Store {
+	var owner types.Type
+	idx := -1
+	switch x := v.(type) {
+	case *ssa.Field:
+		owner, idx = x.X.Type(), x.Field
+	case *ssa.UnOp:
+		if fa, ok := x.X.(*ssa.FieldAddr); ok && x.Op == token.MUL {
+			owner, idx = derefT(fa.X.Type()), fa.Field
+		}
+	}
+	if owner == nil {
+		return nil
+	}
+	n, ok := owner.(*types.Named)
+	if !ok || !an.IsModulePkg(n.Obj().Pkg()) {
+		return nil
+	}
+	var out []*ssa.Store
+	for _, f := range p.Funcs {
+		an.EachInstr(f, func(in ssa.Instruction) {
+			st, ok := in.(*ssa.Store)
+			if !ok {
+				return
+			}
+			if fa, ok := st.Addr.(*ssa.FieldAddr); ok && fa.Field == idx && types.Identical(derefT(fa.X.Type()), owner) {
+				out = append(out, st)
+			}
+		})
+	}
+	return out
 }
 
 // edgeImpliesNonNeg: the edge pred->succ is taken only when e >= 0 (pred ends
@@ -2519,7 +2637,7 @@ func computedSizeUnbounded(p *an.Prog, fn *ssa.Function, at ssa.Instruction, s s
 	var call *ssa.Call
 	for _, o := range an.Origins(s, an.StepValue) {
 		if c, ok := o.(*ssa.Call); ok {
-			if callee := c.Call.StaticCallee(); callee != nil && p.InModule(callee) && arithmeticOnFields(callee) {
+			if callee := c.Call.StaticCallee(); callee != nil && p.InModule(callee) && arithmeticOnFields(p, callee) {
 				call = c
 			}
 		}
@@ -2618,7 +2736,7 @@ func invocableByName(fn *ssa.Function) bool {
 
 // arithmeticOnFields: some result of f is a sum or difference whose operands include a field or parameter
 // read (not a length): the element count of a range.
-func arithmeticOnFields(f *ssa.Function) bool {
+func arithmeticOnFields(p *an.Prog, f *ssa.Function) bool {
 	if f.Blocks == nil || f.Signature.Results().Len() != 1 {
 		return false
 	}
@@ -2639,10 +2757,14 @@ func arithmeticOnFields(f *ssa.Function) bool {
 			lf := linOf(b, 0)
 			for a := range lf.coef {
 				switch x := a.(type) {
-				case *ssa.Field, *ssa.Parameter:
+				case *ssa.Field:
+					if !countField(p, a) {
+						found = true
+					}
+				case *ssa.Parameter:
 					found = true
 				case *ssa.UnOp:
-					if _, isFA := x.X.(*ssa.FieldAddr); isFA {
+					if _, isFA := x.X.(*ssa.FieldAddr); isFA && !countField(p, a) {
 						found = true
 					}
 				}
@@ -2650,6 +2772,24 @@ func arithmeticOnFields(f *ssa.Function) bool {
 		}
 	})
 	return found
+}
+
+// countField: v reads a field that the module only ever fills with a count of things in memory (len, cap,
+// NumIn, NumOut, NumField, reflect's Len): such a number is bounded by what exists, like the count itself.
+func countField(p *an.Prog, v ssa.Value) bool {
+	st := fieldStoresOf(p, v)
+	for _, s := range st {
+		c := an.CallOf(s.Val)
+		if c == nil {
+			return false
+		}
+		switch an.CallName(c) {
+		case "builtin.len", "builtin.cap", "(reflect.Value).Len", "(reflect.Value).Cap", "(reflect.Type).NumIn", "(reflect.Type).NumOut", "(reflect.Type).NumField", "(reflect.Value).NumField":
+		default:
+			return false
+		}
+	}
+	return len(st) > 0
 }
 
 // ---------------------------------------------------------------------------
@@ -2736,6 +2876,18 @@ func runP14(p *an.Prog, r *an.Result) {
 							}
 						}
 					}
+				}
+			}
+			// the kinds the value can have on this edge (through classes of kinds and joins, read as tables)
+			if set, known := kindsOnEdge(p, cond, taken, rv); known && len(set) > 0 {
+				all := true
+				for k := range set {
+					if !nilableKinds[k] {
+						all = false
+					}
+				}
+				if all {
+					return "on an edge where every kind the value can have can be nil"
 				}
 			}
 			b, ok := cond.(*ssa.BinOp)
@@ -2915,4 +3067,44 @@ func sameRef(a, b ssa.Value) bool {
 		}
 	}
 	return false
+}
+
+// basicOnlyConstraint: the constraint of tp is a union of (approximated) basic types and nothing else.
+func basicOnlyConstraint(tp *types.TypeParam) bool {
+	it, ok := tp.Constraint().Underlying().(*types.Interface)
+	if !ok || it.NumMethods() != 0 {
+		return false
+	}
+	found := false
+	var walk func(t types.Type) bool
+	walk = func(t types.Type) bool {
+		switch u := t.(type) {
+		case *types.Union:
+			for i := 0; i < u.Len(); i++ {
+				if !walk(u.Term(i).Type()) {
+					return false
+				}
+			}
+			return u.Len() > 0
+		case *types.Interface:
+			if u.NumMethods() != 0 || u.NumEmbeddeds() == 0 {
+				return false
+			}
+			for i := 0; i < u.NumEmbeddeds(); i++ {
+				if !walk(u.EmbeddedType(i)) {
+					return false
+				}
+			}
+			return true
+		case *types.Named:
+			return walk(u.Underlying())
+		case *types.Alias:
+			return walk(types.Unalias(u))
+		case *types.Basic:
+			found = true
+			return true
+		}
+		return false
+	}
+	return walk(it) && found
 }
